@@ -17,6 +17,7 @@ const (
 	kfNoteOpen  = "KF-C13-note-after-open"
 	kfOpenBuilt = "KF-C13-open-builtin-ids"
 	kfTOCRemove = "KF-C13-toc-removed-style"
+	kfTblOpened = "KF-C13-tblstyle-opened"
 )
 
 var reTOCID = regexp.MustCompile(`^(1[2-9]|2[01])$`)
@@ -205,6 +206,22 @@ var findings = []kit.Finding[Case]{
 				return false
 			}
 			return hasOp(c, func(op Op) bool { return op.K == "heading" || isTOCOp(op.K) })
+		},
+	},
+	{
+		ID:     kfTblOpened,
+		Clause: "C13.X1",
+		Desc:   "ApplyTableStyle/CreateCustomTableStyle on a table of an OPENED document: the style for the w:tblStyle id is only registered while the styles part is generated, and the styles part of an opened document is kept verbatim, so the id stays undefined",
+		// input class: a table-style op naming exactly the failing id, executed on a document object that came from an open,
+		// and the styles part seen at that open did not define the id
+		Trigger: func(c Case, f kit.Failure) bool {
+			kind, id, flags, ok := parse(f)
+			if !ok || kind != "tblStyle" || f.Clause != "C13.X1" || !flags["opened-without"] {
+				return false
+			}
+			return walk(c, func(op Op, s at) bool {
+				return s.opened && (op.K == "tblstyle" || op.K == "tblcustom") && len(op.S) > 0 && op.S[0] == id
+			})
 		},
 	},
 	{
